@@ -631,7 +631,11 @@ pub fn survives(f: impl FnOnce()) -> bool {
             return true;
         }
         if pid == 0 {
-            // child: silence output, bound the time
+            // child: default signal dispositions (under libFuzzer / AddressSanitizer the inherited handlers would
+            // turn a zlib-ng crash in this pre-screen child into a saved "crash artifact"), silence output, bound the time
+            for sig in [libc::SIGSEGV, libc::SIGBUS, libc::SIGABRT, libc::SIGILL, libc::SIGFPE, libc::SIGALRM, libc::SIGTERM, libc::SIGINT, libc::SIGUSR1, libc::SIGUSR2] {
+                libc::signal(sig, libc::SIG_DFL);
+            }
             libc::alarm(20);
             let devnull = libc::open(b"/dev/null\0".as_ptr() as *const _, libc::O_WRONLY);
             if devnull >= 0 {
